@@ -184,3 +184,50 @@ Lemma short_never_octal os rest es :
   Forall Octal os -> (List.length os < 3)%nat -> not_starting_with Octal rest ->
   Seg (bsl :: os ++ rest) es -> forall n es', es <> ESpecial (XAscii n) :: es'.
 Proof. intros Ho Hl Hr H. exact (short_octal_head os rest Ho Hl Hr es H). Qed.
+
+(** * the codes of parsed octal escapes are below 512, hence no surrogates *)
+From FP Require Model.Compile.
+
+Lemma escape_ascii_small e x rest : Escape e x rest -> forall n, x = XAscii n -> n <= 511.
+Proof.
+  intros [H1|(_ & Hx & _)] n En.
+  - destruct H1 as [a b c r Ha Hb Hc|r Hr|w x r Hin].
+    + injection En as <-. unfold Octal in Ha, Hb, Hc. unfold oct. lia.
+    + discriminate En.
+    + exfalso. exact (table_not_ascii w x Hin n En).
+  - rewrite Hx in En. discriminate En.
+Qed.
+
+Lemma seg_ascii_small s es : Seg s es -> forall n, In (ESpecial (XAscii n)) es -> n <= 511.
+Proof.
+  intros H. induction H as [|d f rest es Hd Hs IH|e x rest es He Hs IH|l rest es Hne Hl Hb Hs IH];
+    intros n Hin.
+  - destruct Hin.
+  - destruct Hin as [Hin|Hin]; [discriminate Hin|exact (IH n Hin)].
+  - destruct Hin as [Hin|Hin]; [|exact (IH n Hin)].
+    injection Hin as Hx. exact (escape_ascii_small e x rest He n Hx).
+  - destruct Hin as [Hin|Hin]; [discriminate Hin|exact (IH n Hin)].
+Qed.
+
+Lemma small_is_scalar n : n <= 511 -> Compile.scalar_or_zero n = n.
+Proof.
+  intros Hn. unfold Compile.scalar_or_zero.
+  destruct (55296 <=? n) eqn:E; [|reflexivity]. apply N.leb_le in E. lia.
+Qed.
+
+Lemma parse_format_ok_rest : forall i fmt r, parse_format i = (Ok fmt, r) -> r = [].
+Proof.
+  intros i fmt r H.
+  destruct (parse_format_total i) as [(es & He)|(c & r' & He)]; rewrite He in H.
+  - injection H as _ <-. reflexivity.
+  - discriminate H.
+Qed.
+
+Lemma parsed_codes_are_scalar : forall fmt i r n,
+  parse_format i = (Ok fmt, r) -> In (ESpecial (XAscii n)) fmt ->
+  n <= 511 /\ Compile.scalar_or_zero n = n.
+Proof.
+  intros fmt i r n H Hin. pose proof (parse_format_ok_rest i fmt r H) as ->.
+  apply parse_format_seg in H. pose proof (seg_ascii_small i fmt H n Hin) as Hn.
+  split; [exact Hn|exact (small_is_scalar n Hn)].
+Qed.
